@@ -77,8 +77,9 @@ def generate():
     need(imp and use, "empty candidate array")
     # the rest of find_file, as an anchored shape
     rest = text_of(toks, e2 + 3, hi)
-    expected_rest = ("let rel_url = relative ( & from , url ) ; let found = match self . do_find_file ( & rel_url , names ) ? "
-                     "{ None if rel_url != url => self . do_find_file ( url , names ) ? , found => found , } ; "
+    expected_rest = ("let url = normalize ( url ) ; let rel_url = normalize ( & relative ( & from , & url ) ) ; "
+                     "let found = match self . do_find_file ( & rel_url , names ) ? "
+                     "{ None if rel_url != url => self . do_find_file ( & url , names ) ? , found => found , } ; "
                      "if let Some ( ( path , mut file ) ) = found "
                      "{ let is_module = ! from . is_import ( ) ; let source = from . url ( & path ) ; "
                      "let file = SourceFile :: read ( & mut file , source ) ? ; self . lock_loading ( & file , is_module ) ? ; "
@@ -114,6 +115,32 @@ def generate():
     rel_ok = rel == ("{ base . next ( ) . map ( SourcePos :: file_url ) . and_then ( | base | { base . rfind ( '/' ) "
                      ". map ( | p | base . split_at ( p + 1 ) . 0 ) . map ( | base | format ! ( \"{base}{url}\" ) . into ( ) ) } ) "
                      ". unwrap_or_else ( || url . into ( ) ) }")
+
+    # normalize()
+    nb = fn_body(toks, "normalize")
+    need(nb, "fn normalize not found")
+    norm_ok = text_of(toks, nb[0], nb[1] + 1) == (
+        "{ let mut parts = Vec :: new ( ) ; for part in url . split ( '/' ) { match part { \"\" | \".\" => ( ) , "
+        "\"..\" if parts . last ( ) . is_some_and ( | p | * p != \"..\" ) => { parts . pop ( ) ; } part => parts . push ( part ) , } } "
+        "let root = if url . starts_with ( '/' ) { \"/\" } else { \"\" } ; format ! ( \"{root}{}\" , parts . join ( \"/\" ) ) }")
+
+    # load-css: the file stays locked until the MixinCall arm has handled the body
+    mt = toks_of("rsass/src/sass/mixin.rs")
+    li = find_seq(mt, ["Self", "::", "LoadCss", "=>"])
+    need(li >= 0, "MixinDecl::LoadCss arm not found")
+    lb = block_after(mt, li)
+    ltxt = text_of(mt, lb[0], lb[1] + 1)
+    loadcss_ok = ("unlock_loading" not in ltxt
+                  and ltxt.endswith("Ok ( Mixin { scope , body : source . parse ( ) ? , loading : Some ( source ) , } ) }")
+                  and ". find_file ( url . value ( ) , SourceKind :: load_css ( call_pos ) ) ?" in ltxt)
+    tt2 = toks_of(TRF)
+    mi = find_seq(tt2, ["Item", "::", "MixinCall"])
+    need(mi >= 0, "Item::MixinCall arm not found")
+    mb = block_after(tt2, mi)
+    mtxt = text_of(tt2, mb[0], mb[1] + 1)
+    mixincall_ok = ("let result = handle_parsed ( mixin . body , dest , mixin . scope , file_context , ) ; "
+                    "if let Some ( source ) = & mixin . loading { file_context . unlock_loading ( source ) ; } "
+                    "result . map_err (") in mtxt
 
     # lock / unlock
     lb = fn_body(toks, "lock_loading")
@@ -180,6 +207,8 @@ def generate():
     body += f"Definition do_find_direct_shape_ok : bool := {b(direct_ok)}.\n"
     body += f"Definition do_find_loop_shape_ok : bool := {b(loop_ok)}.\n"
     body += f"Definition relative_shape_ok : bool := {b(rel_ok)}.\n"
+    body += f"Definition normalize_shape_ok : bool := {b(norm_ok)}.\n"
+    body += f"Definition loadcss_lock_shape_ok : bool := {b(loadcss_ok and mixincall_ok)}.\n"
     body += f"Definition lock_shape_ok : bool := {b(lock_ok)}.\n"
     body += f"Definition unlock_shape_ok : bool := {b(unlock_ok)}.\n"
     body += f"Definition fsloader_shape_ok : bool := {b(fs_ok and push_ok)}.\n"
